@@ -116,12 +116,45 @@ class Ctx:
     # ------------------------------------------------------------------ TLC
     def tlc(self, module, cfg, workers=None, timeout=600, simulate=None, depth=None,
             coverage=True, env=None, extra=None, allow_violation=False, dfs=False,
-            java_opts=None, tag=None):
+            java_opts=None, tag=None, cache=False, subst=None):
         """Run TLC on tla/<module>.tla with tla/<cfg>.  Returns TlcResult.
+
+        cache=True: TLC's output depends only on the spec files, the config, the seed and the
+        environment passed — not on /repo — so checks that share one enumeration (the graph
+        properties) may reuse it; the key hashes all of those.
 
         A violated invariant of the *spec* is a tool-level failure (exit 2) unless
         allow_violation=True (used by binding self-tests and trace validation)."""
         tag = tag or cfg.replace(".cfg", "")
+        cfg_path = os.path.join(TLA, cfg)
+        if subst:
+            # constants that depend on the run (seed, tier): textual substitution into a copy
+            txt = open(cfg_path).read()
+            for a, b in subst.items():
+                if a not in txt:
+                    raise ToolError("cfg substitution %r not found in %s" % (a, cfg))
+                txt = txt.replace(a, str(b))
+            cfg_path = os.path.join(self.workdir, tag + ".subst.cfg")
+            open(cfg_path, "w").write(txt)
+        ckey = None
+        if cache:
+            ckey = self._tlc_cache_key(module, cfg_path, simulate, depth, env, extra)
+            cpath = os.path.join(WORK, "cache", "tlc-%s.json" % ckey)
+            if os.path.exists(cpath):
+                try:
+                    d = json.load(open(cpath))
+                    r = TlcResult()
+                    r.__dict__.update(d)
+                    r.coverage = {k: tuple(v) for k, v in r.coverage.items()}
+                    self.log("TLC %s/%s: cached (%d distinct, %d replay lines)" % (module, cfg, r.states, len(r.replays)))
+                    self.tlc_runs.append({"module": module, "cfg": cfg, "states": r.states, "generated": r.generated,
+                                          "depth": r.depth, "wall_s": round(r.wall_s, 2), "simulate": simulate or 0,
+                                          "cached": True})
+                    self.states += r.states
+                    self.transitions += r.generated
+                    return r
+                except Exception:
+                    pass
         md = os.path.join(self.workdir, "tlc-" + tag)
         shutil.rmtree(md, ignore_errors=True)
         os.makedirs(md, exist_ok=True)
@@ -144,7 +177,7 @@ class Ctx:
             cmd += ["-seed", str(self.seed)]
         if extra:
             cmd += extra
-        cmd += ["-config", os.path.join(TLA, cfg), os.path.join(TLA, module + ".tla")]
+        cmd += ["-config", cfg_path, os.path.join(TLA, module + ".tla")]
         e = dict(os.environ)
         if env:
             e.update({k: str(v) for k, v in env.items()})
@@ -175,13 +208,39 @@ class Ctx:
         if not r.violated and not r.complete and not simulate:
             sys.stderr.write(self._tail(r.output))
             raise ToolError("TLC did not complete on %s/%s (rc=%d)" % (module, cfg, rc))
-        if not simulate:
-            self.states += r.states
-            self.transitions += r.generated
-        else:
-            self.states += r.states
-            self.transitions += r.generated
+        self.states += r.states
+        self.transitions += r.generated
+        if ckey and not r.violated:
+            os.makedirs(os.path.join(WORK, "cache"), exist_ok=True)
+            d = {k: v for k, v in r.__dict__.items() if k != "output"}
+            d["output"] = ""
+            tmp = os.path.join(WORK, "cache", "tlc-%s.json.%d" % (ckey, os.getpid()))
+            json.dump(d, open(tmp, "w"))
+            os.replace(tmp, os.path.join(WORK, "cache", "tlc-%s.json" % ckey))
         return r
+
+    def _tlc_cache_key(self, module, cfg, simulate, depth, env, extra):
+        h = hashlib.sha1()
+        seen = set()
+
+        def add(mod):
+            if mod in seen:
+                return
+            seen.add(mod)
+            p = os.path.join(TLA, mod + ".tla")
+            if not os.path.exists(p):
+                return
+            txt = open(p).read()
+            h.update(txt.encode())
+            for m in re.finditer(r"^\s*(?:EXTENDS|INSTANCE)\s+(.*)$", txt, re.M):
+                for name in re.split(r"[,\s]+", m.group(1)):
+                    name = name.strip()
+                    if name and re.match(r"^\w+$", name):
+                        add(name)
+        add(module)
+        h.update(open(cfg).read().encode())
+        h.update(json.dumps([self.seed if simulate else 0, simulate, depth, env, extra], sort_keys=True, default=str).encode())
+        return h.hexdigest()[:20]
 
     @staticmethod
     def _tail(s, n=60):
@@ -293,11 +352,21 @@ class Ctx:
             sum(1 for r in res if not r.get("ok")), time.time() - t))
         return res
 
-    def absorb(self, results, count_traces=True):
-        """Default handling of engine results: count, record drift, report failures."""
+    def absorb(self, results, count_traces=True, only_own=False):
+        """Default handling of engine results: count, record drift, report failures.
+        only_own=True: failures whose key names another property (engines shared by several
+        properties emit keys `Cxx:...`) are counted in the evidence but reported by that
+        property's own check, which runs the same cases."""
         for r in results:
             self.drift += int(r.get("drift", 0) or 0)
             if not r.get("ok", False):
+                k = r.get("key", "")
+                if only_own and re.match(r"^C\d\d:", k) and not k.startswith(self.prop + ":"):
+                    self.cov["failures_of_other_properties"] = self.cov.get("failures_of_other_properties", 0) + 1
+                    self.cov.setdefault("other_property_keys", [])
+                    if k not in self.cov["other_property_keys"]:
+                        self.cov["other_property_keys"].append(k)
+                    continue
                 self.violation(r.get("key", self.prop + ":unknown"), r.get("msg", ""),
                                {"input": r.get("_in"), "result": {k: v for k, v in r.items() if k != "_in"}})
         if count_traces:
